@@ -333,11 +333,24 @@ func (f *fixture) call(kind string, event int32, tag string, bound time.Duration
 	case <-time.After(bound):
 	}
 	res := callResult{timedOut: true, stacks: allStacks(), dur: time.Since(start)}
+	// unwedge the request so that the fixture can be torn down: first let the hanging handlers
+	// answer, then cut every proxied connection
 	f.releaseAll()
 	select {
 	case o := <-done:
 		res.resp, res.err = o.m, o.err
-	case <-time.After(20 * time.Second):
+		return res
+	case <-time.After(2 * time.Second):
+	}
+	for _, pl := range f.plugs {
+		if pl.proxy != nil {
+			pl.proxy.CloseNow()
+		}
+	}
+	select {
+	case o := <-done:
+		res.resp, res.err = o.m, o.err
+	case <-time.After(10 * time.Second):
 		res.stuck = true
 	}
 	return res
@@ -978,9 +991,24 @@ func describe(ft Fault) string {
 	return ft.Kind
 }
 
+var (
+	confirmedMu sync.Mutex
+	confirmed   = map[string]string{}
+)
+
 // runC07 judges one case. Verdicts that depend on the clock are confirmed by re-executing the
 // same case (up to three more times); they count as violations only if they fail every time.
 func runC07(c C07Case) ev.Outcome {
+	key := string(ev.Snapshot(c))
+	confirmedMu.Lock()
+	if txt, ok := confirmed[key]; ok {
+		confirmedMu.Unlock()
+		// rapid re-runs a failing case several times (before, during and after shrinking); a
+		// time-clause failure of the very same case that was already confirmed by three
+		// re-executions is not paid for again
+		return ev.Outcome{Fail: txt}
+	}
+	confirmedMu.Unlock()
 	v := runOnce(c)
 	if v.timeFail != "" {
 		first := v
@@ -1006,6 +1034,9 @@ func runC07(c C07Case) ev.Outcome {
 		o.Fail = v.fail
 	case v.timeFail != "":
 		o.Fail = v.timeFail + " (confirmed by re-execution)"
+		confirmedMu.Lock()
+		confirmed[key] = o.Fail
+		confirmedMu.Unlock()
 	case v.overload != "":
 		o.Overloaded = true
 		o.Classes = append(o.Classes, "overloaded")
